@@ -16,14 +16,15 @@ META = {
 def configs(tier):
     cs = []
     D = '-fno-access-control'
-    def add(P, Dm, i1, i2, edit, split, mp):
-        cs.append(Config('p%dd%d-it%d+%d-edit%d%s' % (P, Dm, i1, i2, edit, '-split' if split else ''), 'C20', [P, Dm, i1, i2, edit, split], max_paths=mp, defines=D, strategy='tree', solver_timeout_ms=10000))
+    def add(P, Dm, i1, i2, edit, split, mp, i3=None, edit2=0):
+        cs.append(Config('p%dd%d-it%d+%d%s-edit%d%s%s' % (P, Dm, i1, i2, '+%d' % i3 if i3 is not None else '', edit, '%d' % edit2 if i3 is not None else '', '-split' if split else ''), 'C20', [P, Dm, i1, i2, edit, split] + ([i3, edit2] if i3 is not None else []), max_paths=mp, defines=D, strategy='tree', solver_timeout_ms=10000))
     if tier == 'quick':
-        add(2, 1, 1, 1, 0, 1, 60); add(2, 1, 1, 1, 2, 0, 60); add(2, 1, 1, 1, 1, 0, 60); add(1, 2, 2, 1, 3, 0, 40); add(2, 2, 1, 1, 0, 0, 40); add(2, 1, 0, 2, 4, 0, 40)
+        add(2, 1, 1, 1, 0, 1, 60); add(2, 1, 1, 1, 2, 0, 60); add(2, 1, 1, 1, 1, 0, 60); add(1, 2, 2, 1, 3, 0, 40); add(2, 2, 1, 1, 0, 0, 40); add(2, 1, 0, 2, 4, 0, 40); add(2, 1, 1, 1, 2, 0, 40, 1, 1); add(1, 1, 1, 1, 1, 0, 30, 0, 2)
     else:
         for P, Dm in ((1, 1), (2, 1), (2, 2), (1, 2)):
             for edit in (0, 1, 2, 3, 4):
                 add(P, Dm, 1, 1, edit, 0, 400); add(P, Dm, 2, 1, edit, 0, 400); add(P, Dm, 0, 2, edit, 0, 300)
+            for e1, e2 in ((2, 1), (1, 2), (1, 1), (2, 2), (3, 1), (2, 3)): add(P, Dm, 1, 1, e1, 0, 200, 1, e2); add(P, Dm, 0, 1, e1, 0, 150, 0, e2)
             add(P, Dm, 1, 1, 0, 1, 400); add(P, Dm, 1, 2, 0, 1, 400); add(P, Dm, 2, 1, 0, 1, 400)
     return cs
 
